@@ -18,12 +18,13 @@ def run(ck: Check):
     if os.path.exists(os.path.join(ROOT, "coq", "Properties", "C09.v")):
         obligations, discharged, axioms = standard_proof_step(ck)
     jobs = []
-    for k in range(ck.n(50, 1200)):
+    for k in range(ck.n(300, 3000)):
         mode = r.choice(["general", "general", "element_only", "value_ws"])
         if mode == "general":
-            m = G.gen_model(r, slices=r.choice([("F1",), ("F1", "F2"), ("F1", "F2", "F3")]), prims=NOQ)
+            m = G.gen_model(r, slices=r.choice([("F1",), ("F1", "F2"), ("F1", "F3"), ("F1", "F2", "F3")]), prims=NOQ,
+                            uniform_ns=r.random() < 0.5)
         elif mode == "element_only":
-            m = G.gen_model(r, slices=("F1",), prims=NOQ)
+            m = G.gen_model(r, slices=r.choice([("F1",), ("F1", "FA"), ("F1", "F3", "FA")]), prims=NOQ)
         else:
             m = G.gen_model(r, slices=("F1",), prims=NONSTR)
         insts = [G.gen_instance(r, m, m["root"]) for _ in range(3)]
